@@ -274,6 +274,12 @@ func (s *configurationStore) Update(ctx context.Context, configuration *configap
 		if err := s.store(ctx, committed, configuration.Values); err != nil {
 			return err
 		}
+		// Update is given the complete set of committed values: an entry of the map that is no longer among
+		// them was removed on purpose (the tombstone of a deleted node is cleared when a value is written
+		// beneath it again) and must not come back with the next read.
+		if err := s.removeAbsent(ctx, committed, configuration.Values); err != nil {
+			return err
+		}
 	}
 
 	configuration.Revision++
@@ -564,6 +570,36 @@ func (s *configurationStore) store(ctx context.Context, store _map.Map[string, *
 			return errors.NewConflict(err.Error())
 		}
 		return err
+	}
+	return nil
+}
+
+// removeAbsent removes the entries of the given path value map that are not present in values
+func (s *configurationStore) removeAbsent(ctx context.Context, store _map.Map[string, *configapi.PathValue], values map[string]*configapi.PathValue) error {
+	stream, err := store.List(ctx)
+	if err != nil {
+		return errors.FromAtomix(err)
+	}
+	var absent []string
+	for {
+		entry, err := stream.Next()
+		if err == io.EOF {
+			break
+		}
+		if err != nil {
+			return errors.FromAtomix(err)
+		}
+		if _, ok := values[entry.Key]; !ok {
+			absent = append(absent, entry.Key)
+		}
+	}
+	for _, path := range absent {
+		if _, err := store.Remove(ctx, path); err != nil {
+			err = errors.FromAtomix(err)
+			if !errors.IsNotFound(err) {
+				return err
+			}
+		}
 	}
 	return nil
 }
